@@ -26,7 +26,7 @@ func init() {
 			"Added after blind round 7: the service hands the registry the engine itself (EngineFacade.BeginTransaction is the only place that downgrades a read-write request on a replica). " +
 			"Added after blind round 8: every comparison with a replication-mode constant is made on the stored string itself, never on a transformed value (the interpreters of the mode must agree).",
 		NotDecided: "that data stays byte-identical (follows from the guard dominating every effect); interleavings of client calls with replication apply; the window between replica.Start() and SetReadOnly(true) (reported as info).",
-		Rules:      []func(*Ctx, *Reporter){ruleC16Mutators, ruleC16Who, ruleC16Tx, ruleC16Applier, ruleC16Start, ruleC16NodeInfo, ruleReflectiveDoors, ruleReadOnlyOnlyRaised, ruleTxLockWriters, ruleNodeInfoReadOnlyFromEngine, ruleServiceBeginsThroughEngine, ruleModeComparedVerbatim},
+		Rules:      []func(*Ctx, *Reporter){ruleC16Mutators, ruleC16Who, ruleC16Tx, ruleC16Applier, ruleC16Start, ruleC16NodeInfo, ruleReflectiveDoors, ruleReadOnlyOnlyRaised, ruleTxLockWriters, ruleNodeInfoReadOnlyFromEngine, ruleServiceBeginsThroughEngine, ruleModeComparedVerbatim, ruleServiceSuccessOnlyAfterEngine},
 	})
 }
 
@@ -648,7 +648,7 @@ func ruleC16Applier(c *Ctx, r *Reporter) {
 // storageCallNames lists, sorted, the storage/compaction interface methods a facade method invokes.
 func storageCallNames(c *Ctx, fn *ssa.Function) string {
 	set := map[string]bool{}
-	AllInstrs(fn, true, func(_ *ssa.Function, ins ssa.Instruction) {
+	visit := func(_ *ssa.Function, ins ssa.Instruction) {
 		ci, ok := ins.(ssa.CallInstruction)
 		if !ok {
 			return
@@ -660,6 +660,19 @@ func storageCallNames(c *Ctx, fn *ssa.Function) string {
 				set[cc.Method.Name()] = true
 			}
 		}
+	}
+	AllInstrs(fn, true, visit)
+	// bookkeeping moved into an unexported helper on the same receiver is still this method's effect
+	AllInstrs(fn, true, func(_ *ssa.Function, ins ssa.Instruction) {
+		ci, ok := ins.(ssa.CallInstruction)
+		if !ok {
+			return
+		}
+		h := ci.Common().StaticCallee()
+		if h == nil || h == fn || len(h.Blocks) == 0 || h.Object() == nil || h.Object().Exported() || recvTypeName(h) == "" || recvTypeName(h) != recvTypeName(fn) {
+			return
+		}
+		AllInstrs(h, true, visit)
 	})
 	var out []string
 	for k := range set {
